@@ -778,9 +778,25 @@ class C19(Prop):
     trusted = ["harness/effects/translate.py (Python AST -> effect IR) and its tables of NumPy/stdlib calls returning fresh memory, "
                "views, or writing an argument; `.copy()` is assumed to be ndarray.copy; duck-typed method calls are resolved by name "
                "over pewlib's own classes; a parameter and everything reachable from it is one region (own/reach split)",
+               "translator, typing: annotations are trusted where they name an ndarray/scalar/str, a builtin container, an "
+               "ElementTree Element/ElementTree, a pewlib class (parameters, results of inlined functions, `self.f = <annotated "
+               "__init__ parameter>` when nothing else in the program assigns an attribute `f`) or `list[<pewlib class>]`: method and "
+               "property lookups on such values use that class hierarchy (with subclass overrides) instead of the name tables; "
+               "objects returned by ElementTree.parse/fromstring are fresh, their find/findall/iter/iterfind/getroot return parts, "
+               "findtext/itertext/get/keys/items/tag/text/tail return str; compiled-pattern match/search/fullmatch are pure; "
+               "Executor.submit(f, *a) is the call f(*a); sorted/min/max/list.sort(key=f) and map/filter(f, xs) apply f to the items "
+               "(lambdas are translated in place with their parameter bound to the items, anywhere else with an unknown argument; "
+               "their free variables are read when the lambda is created); a name bound only to pewlib functions, or a pewlib function "
+               "passed by name to an inlined callee, is called as a branch over those functions; a call of any other function-valued "
+               "parameter is an unknown call; str()/f-strings run __str__ only for values of a known pewlib class",
                "the theorems are about the IR semantics (Pew.Effects.Exec); fidelity of the translation is validated only by the "
                "dynamic snapshot run: every observed write / memory sharing must have been predicted by the analysis"]
     assumptions = ["writes performed inside C extensions on buffers the table calls fresh are not visible",
+                   "UNPROVED_STATIC in harness/c19.py lists the (function, parameter) pairs that rest on the dynamic calls alone "
+                   "(user callbacks, an open file handle's position, results holding the caller's immutable Path/tuple objects, "
+                   "boolean-mask indexing); they are not counted as static obligations and permit nothing at run time",
+                   "pewlib.io.csv.load is called with an in-process stand-in for ProcessPoolExecutor, so that what a reader task "
+                   "does to its arguments is observable",
                    "ALLOWED_WRITES / ALIAS_BASELINE in harness/c19.py are the documented mutators and the reviewed alias baseline"]
 
     def __init__(self):
